@@ -376,6 +376,19 @@ def rule_option_files_reach(ctx, rep):
     seen_text = ""
     for fn in [f for f in ctx.prog.live_functions() if f.module is mod]:
         body_nodes: list[tuple[ast.AST, dict]] = []
+        # the map is whatever local receives the result of detect_sarif_tools(...) (its name is free to change)
+        r0 = ctx.resolver(fn)
+        map_names = set()
+        for a in walk_no_nested(fn.node):
+            if isinstance(a, (ast.Assign, ast.AnnAssign)) and isinstance(a.value, ast.Call) and (r0.callee_qname(a.value) or "").endswith("detect_sarif_tools"):
+                tg0 = a.targets[0] if isinstance(a, ast.Assign) else a.target
+                if isinstance(tg0, ast.Name):
+                    map_names.add(tg0.id)
+                    seen_text += " " + unparse(a.value)
+                    for nm in names_in(a.value):
+                        x = r0.single_assignments().get(nm)
+                        if x is not None:
+                            seen_text += " " + unparse(x)
         # expand `for a, b in TABLE:` over a module-level literal table
         def expand(stmts, env):
             for st in stmts:
@@ -433,9 +446,7 @@ def rule_option_files_reach(ctx, rep):
                 elif isinstance(recv, ast.Subscript):
                     tgt = recv
                 val, kind = st.value.args[0], "add"
-            if tgt is None or "result_files" not in unparse(tgt.value):
-                if isinstance(st, (ast.Assign, ast.AnnAssign)) and st.value is not None and "result_files" in unparse(st.targets[0] if isinstance(st, ast.Assign) else st.target):
-                    seen_text += " " + unparse(S(st.value))
+            if tgt is None or not (isinstance(tgt.value, ast.Name) and tgt.value.id in map_names):
                 continue
             key = S(tgt.slice)
             src = unparse(S(val))
